@@ -372,6 +372,9 @@ func (e *vsEnv) settle(attempts []*vsAttempt, faultsOn bool) {
 			continue
 		}
 		// success
+		if a.fault.Kind == "abort" {
+			r.Fail("all-or-nothing", "aborted-upload-committed", "%s: the client aborted the upload (after file %d, %d bytes into it) but the server committed it: %d %q", a.client, a.fault.File, a.fault.Pos, a.status, clipS(a.body))
+		}
 		if !idRE.MatchString(a.id) {
 			r.Fail("upload-id", "malformed-id", "upload succeeded with ID %q", a.id)
 		}
@@ -685,6 +688,13 @@ func (e *vsEnv) genAttempt(faultsOn bool, force *vsFault) *vsAttempt {
 	}
 	if force != nil {
 		a.fault = *force
+	} else if !faultsOn && T.Intn(8, "client-abort") == 0 {
+		// not an injected fault: the client itself gives up; its records must never become visible
+		a.fault.Kind = "abort"
+		a.fault.File = T.Intn(nf, "abort-file")
+		if T.Bool("abort-mid-file") {
+			a.fault.Pos = 1 + T.Intn(len(a.files[a.fault.File].text)+1, "abort-pos")
+		}
 	} else if faultsOn && T.Intn(3, "inject") != 0 {
 		kinds := []string{"nobench", "badfield", "abort", "cut", "create", "write", "short-write", "close", "auth"}
 		a.fault.Kind = sim.Pick(T, kinds, "fault-kind")
